@@ -10,7 +10,7 @@ META = {
     "bounds": {
         "quick": {"child": "all parent secrets k in [1,N-1], chain codes (32 bytes), indexes in [0, 2^32) (hardened and not), depth 0..254, "
                            "parent fingerprint / child number symbolic",
-                  "codec": "78-byte xprv/xpub: depth, fingerprint, child number, chain code, key all symbolic, for each of the 20 version prefixes",
+                  "codec": "78-byte xprv/xpub: depth, fingerprint, child number, chain code, key all symbolic, for each of the 20 version prefixes; every 2- and 3-step history of raw_serialize / xpub() / xpub(zpub) / xprv() on one object",
                   "traverse": "paths of 1..4 components from a fixed list of renderings (' / h / H, upper- and lower-case m) over symbolic key material"},
         "thorough": {"traverse": "paths up to 8 components"}},
     "outside": ["is_valid_bip32_path / combine_bip32_paths / blind_xpub path bookkeeping on arbitrary path *strings* (regex and str methods on symbolic "
@@ -172,6 +172,81 @@ def _codec_path(e, priv, vi):
     return "ok"
 
 
+class _B58(str):
+    """stand-in for the Base58Check text of a payload (the text layer is C09's): remembers the raw bytes"""
+    def __new__(cls, raw):
+        o = str.__new__(cls, "<base58check>")
+        o.raw = raw
+        return o
+
+
+@with_env("hd")
+def _codec_history_path(e, order):
+    """one object, several serialisations in different orders: every call must give the layout for the version asked for
+    (the extended-key text must not depend on what was serialised earlier on the same object)"""
+    hd = loader.load("hd")
+    k, cc, depth, pfp, cn, parent = _mk_parent(e, hd)
+    saved = hd.encode_base58_checksum
+    hd.encode_base58_checksum = lambda raw: _B58(raw)
+    try:
+        pub = parent.pub
+        zpub = bytes.fromhex("04b24746")
+        default = hd.XPUB["mainnet"]
+        body = core.sbytes(SBytes([depth])) + pfp + cn.to_bytes(4, "big") + cc + spec_sec(e, k)
+        wit = lambda env: {"k": env["k"], "cc": bytes_env(env, "cc", 32).hex(), "order": list(order)}  # noqa
+        for step in order:
+            if step == "raw":
+                got, ver = pub.raw_serialize(), default
+            elif step == "xpub":
+                got, ver = pub.xpub().raw, default
+            elif step == "zpub":
+                got, ver = pub.xpub(version=zpub).raw, zpub
+            elif step == "priv.xpub-z":
+                got, ver = parent.xpub(version=zpub).raw, zpub
+            else:
+                got, ver = parent.xprv().raw, None
+            if ver is None:
+                want = hd.XPRV["mainnet"] + core.sbytes(SBytes([depth])) + pfp + cn.to_bytes(4, "big") + cc + b"\x00" + k.to_bytes(32, "big")
+            else:
+                want = ver + body
+            check((len(got) == 78) and (got == want), f"after {order}: step {step} does not serialise the key with the requested version", witness=wit)
+        return "ok"
+    finally:
+        hd.encode_base58_checksum = saved
+
+
+def ob_codec_history():
+    import itertools
+    steps = ("raw", "xpub", "zpub", "priv.xpub-z", "xprv")
+    orders = [o for n in (2, 3) for o in itertools.permutations(steps, n)]
+    runs = [sym_run(lambda: _codec_history_path(o), mode="int", timeout_ms=60000) for o in orders]
+    m = merge_runs(runs)
+    m["sample"] = {"object": "one HDPrivateKey / its .pub with symbolic fields", "histories": len(orders), "steps": list(steps)}
+    return m
+
+
+def replay_codec_history(w):
+    from buidl import hd, pecc, helper
+    parent = hd.HDPrivateKey(pecc.PrivateKey(w["k"]), bytes.fromhex(w["cc"]))
+    pub = parent.pub
+    zpub = bytes.fromhex("04b24746")
+    bad = []
+    for step in w["order"]:
+        if step == "raw":
+            got, ver = pub.raw_serialize(), hd.XPUB["mainnet"]
+        elif step == "xpub":
+            got, ver = helper.raw_decode_base58(pub.xpub()), hd.XPUB["mainnet"]
+        elif step == "zpub":
+            got, ver = helper.raw_decode_base58(pub.xpub(version=zpub)), zpub
+        elif step == "priv.xpub-z":
+            got, ver = helper.raw_decode_base58(parent.xpub(version=zpub)), zpub
+        else:
+            got, ver = helper.raw_decode_base58(parent.xprv()), hd.XPRV["mainnet"]
+        if got[:4] != ver:
+            bad.append(f"{step}: version {got[:4].hex()} instead of {ver.hex()}")
+    return {"violated": bool(bad), "observed": f"history {w['order']}: {bad}"}
+
+
 def ob_codec(priv):
     runs = [sym_run(lambda: _codec_path(priv, vi), mode="int", timeout_ms=60000) for vi in range(10)]
     m = merge_runs(runs)
@@ -263,4 +338,5 @@ def replay_traverse(w):
 def obligations(tier):
     q = tier == "quick"
     return [Ob("O1-child", ob_child, replay="child"), Ob("O2-codec", ob_codec, {"priv": True}, replay="codec"),
-            Ob("O2-codec", ob_codec, {"priv": False}, replay="codec"), Ob("O3-traverse", ob_traverse, {"long": not q}, replay="traverse", budget_s=1800)]
+            Ob("O2-codec", ob_codec, {"priv": False}, replay="codec"), Ob("O2-codec-history", ob_codec_history, replay="codec_history"),
+            Ob("O3-traverse", ob_traverse, {"long": not q}, replay="traverse", budget_s=1800)]
